@@ -143,5 +143,9 @@ SanRejects(pos, ms) ==
       \* pawn pushes to squares no pawn can reach; castling that is not available
       pawnno == {SqNameT[t] : t \in {t \in Squares : RankOf(t) \in 1..6 /\ ~\E y \in ms : Kind(b[y.f]) = "p" /\ y.t = t /\ y.p = NoPromo}}
       nocastle == {c \in {"O-O", "O-O-O"} : ~\E y \in ms : IsCastle(pos, y) /\ (FileOf(y.t) = 6) = (c = "O-O")}
-  IN ambiguous \cup nothing \cup wrongfile \cup pawnno \cup nocastle
+      \* destinations that are not on the board at all
+      offboard == {UpperKind(k) \o FileNames[f] \o d : k \in officers, f \in 1..8, d \in {"0", "9"}}
+                  \cup {FileNames[f] \o d : f \in 1..8, d \in {"0", "9"}}
+                  \cup {UpperKind(k) \o c \o RankNames[r] : k \in officers, c \in {"i", "j"}, r \in 1..8}
+  IN ambiguous \cup nothing \cup wrongfile \cup pawnno \cup nocastle \cup offboard
 =============================================================================
